@@ -355,8 +355,14 @@ func (s *State) EvalOptions(parsed *hclparse.Parser, v any, opts *EvalOptions) e
 	if ctx.Variables == nil {
 		ctx.Variables = make(map[string]cty.Value)
 	}
-	for name, file := range files {
+	for name := range files {
 		fileNames = append(fileNames, name)
+	}
+	// Evaluate the files in a fixed order: the references of a file (e.g. locals)
+	// can see only what was defined by the files evaluated before it.
+	sort.Strings(fileNames)
+	for _, name := range fileNames {
+		file := files[name]
 		if err := s.setInputVals(ctx, file.Body, opts.Variables); err != nil {
 			return err
 		}
